@@ -207,8 +207,8 @@ def run(ctx):
         ctx, specs,
         rule="scenario product (flavour x failure kind x registration; instants x bystanders; "
              "double failures) x every schedule within the deviation bound (preemptions, "
-             "non-default wake-up order, trio batch order); a scenario is non-trivial when "
-             "more than one schedule of it was executed",
+             "non-default wake-up order, trio batch order); non-trivial = a schedule with at least one "
+             "deviation from the default one (all explored schedules are distinct)",
         bounds={"deviation_bound": bound,
                 "double_failure_bound": bound + (1 if ctx.quick else 0),
                 "granularity": "synchronisation operations" + (
